@@ -231,6 +231,13 @@ def run(ctx):
         if i % 9 == 4:
             pw = ""           # an explicitly given EMPTY password is a password (nobody is to be asked for another one)
         cases.append((kind, pw, gen_params(r)))
+    # corpus (always run): VNC authentication under each negotiable version x each SecurityResult code x each client class
+    for cver in ((3, 3), (3, 7), (3, 8), (3, 889)):
+        for cres in (0, 1, 2, 3):
+            for ckind in ("base", "lib", "cli"):
+                p_ = gen_params(r)
+                p_.update(ver=cver, offer=[2], scheme=2, result=cres)
+                cases.append((ckind, "secret", p_))
     if ctx.tier == "thorough":
         # all 10^6 numeric banners through the real _handleInitial (exhaustive): reply = highest of 3.3/3.7/3.8 <= banner
         bad = 0
